@@ -343,18 +343,6 @@ func checkLevelFlag(c *km.Ctx, s *km.Sem, h *ssa.Function, flag *ssa.Phi) {
 	}
 }
 
-func isRangeBound(f km.Fact) bool {
-	if f.Op != token.LSS && f.Op != token.GEQ {
-		return false
-	}
-	if cl, ok := f.Y.(*ssa.Call); ok {
-		if b, ok := cl.Common().Value.(*ssa.Builtin); ok && b.Name() == "len" {
-			return true
-		}
-	}
-	return false
-}
-
 func bitNames(bits []int64, names map[int64]string) []string {
 	var out []string
 	for _, b := range bits {
